@@ -1462,6 +1462,11 @@ func planC15(tier string, seed int64) (*Plan, error) {
 	}
 	jobs = append(jobs, job("H_c15_ids", "cfg", core, "shape", "aaa", "tns", "133", "alpha", "a-1"))
 	jobs = append(jobs, job("H_c15_ids", "cfg", all, "shape", "aaaa", "tns", "1113", "alpha", "a-1"))
+	// a literal suffix form in every position among repeats, suffix digits 1 and 2 ('a','a','a-2','a')
+	for _, tns := range []string{"1131", "1311", "3111"} {
+		jobs = append(jobs, job("H_c15_ids", "cfg", core, "shape", "aaaa", "tns", tns, "alpha", "a-12"))
+	}
+	jobs = append(jobs, job("H_c15_ids", "cfg", core, "shape", "aaaaa", "tns", "11311", "alpha", "a-23"))
 	for _, l := range []string{",,heading", "heading,,", ",,heading-1", ",heading-1,", "Heading 1,,"} {
 		jobs = append(jobs, job("H_c15_ids", "cfg", core, "shape", "asa", "tn", 1, "alpha", "!h?-1", "lits", l))
 	}
@@ -1503,7 +1508,7 @@ func planC15(tier string, seed int64) (*Plan, error) {
 	p.Jobs = jobs
 	p.Bounds = map[string]interface{}{
 		"T(headings)": "2 headings of every kind pair from {ATX, Setext =, Setext -, ATX in quote, ATX in list item, Setext in quote, ATX with closing #, level-2 ATX} (quick: a seeded sixth of the pairs and a third of the diagonal) with 1-byte fully symbolic texts; 3 headings with 1-byte texts over {a,A,-,_,1,space,C3,A9,!}; 2 headings with 2-byte texts over {a,A,-,1,space,C3}",
-		"collisions":  "texts of lengths (1,1,3), (3,1,1), (1,3,3), (1,1,1,3) over {a,-,1} (the 'a','a','a-1' family), two 1-byte texts over {!,h,?,-,1} next to the literal texts 'heading', 'heading-1', 'Heading 1' in every position (the fallback id)",
+		"collisions":  "texts of lengths (1,1,3), (3,1,1), (1,3,3), (1,1,1,3) over {a,-,1} (the 'a','a','a-1' family), (1,1,3,1), (1,3,1,1), (3,1,1,1) over {a,-,1,2} and (1,1,3,1,1) over {a,-,2,3}, two 1-byte texts over {!,h,?,-,1} next to the literal texts 'heading', 'heading-1', 'Heading 1' in every position (the fallback id)",
 		"history":     "every case is converted, then a state-rich document with the same heading texts and suffix-like headings, then converted again on the same instance: outputs must be equal; two cases with a symbolic history heading of 1 byte (256 values) and 2 bytes over {a,-,1,#,LF}",
 		"free-form":   fmt.Sprintf("S(2) all extensions; S(%d,{#,space,a,LF,=}) and S(%d,{#,a,LF,-,1}); %d seeded corpus windows over documents with headings", la, la, nwin),
 		"outside":     "explicit {#id} attribute syntax (the property excludes it); more than 4 headings",
